@@ -881,4 +881,254 @@ theorem numtree_faithful (es : List (Int × V)) (hasc : Asc es)
   lookup_write_full _ (by decide) es hasc hsmall
 
 end
+section
+variable {K V : Type} [KeyOrd K] [LawfulKeyOrd K] [DecidableEq K]
+
+/-! ## the in-memory tree value: every answer is a function of the current map -/
+
+/-- the association list holds every key once (a Go map) -/
+def KeysNodup (m : List (K × V)) : Prop := m.Pairwise fun a b => a.1 ≠ b.1
+
+theorem mapGet_mapSet (k k' : K) (v : V) : ∀ m : List (K × V),
+    mapGet k' (mapSet k v m) = if k' = k then some v else mapGet k' m
+  | [] => by
+    by_cases h : k' = k
+    · simp [mapSet, mapGet, h]
+    · have : ¬ k = k' := fun e => h e.symm
+      simp [mapSet, mapGet, h, this]
+  | (a, x) :: rest => by
+    by_cases ha : a = k
+    · subst ha
+      by_cases h : k' = a
+      · simp [mapSet, mapGet, h]
+      · have : ¬ a = k' := fun e => h e.symm
+        simp [mapSet, mapGet, h, this]
+    · simp only [mapSet, ha, if_false, mapGet]
+      by_cases h2 : a = k'
+      · subst h2
+        simp [ha]
+      · simp only [h2, if_false]
+        exact mapGet_mapSet k k' v rest
+
+theorem key_mem_mapSet {k : K} {v : V} : ∀ {m : List (K × V)} {e : K × V}, e ∈ mapSet k v m →
+    e.1 = k ∨ ∃ e' ∈ m, e'.1 = e.1
+  | [], e, h => by simp [mapSet] at h; subst h; exact .inl rfl
+  | (a, x) :: rest, e, h => by
+    by_cases ha : a = k
+    · simp only [mapSet, ha, if_true, List.mem_cons] at h
+      rcases h with h | h
+      · subst h; exact .inl rfl
+      · exact .inr ⟨e, by simp [h], rfl⟩
+    · simp only [mapSet, ha, if_false, List.mem_cons] at h
+      rcases h with h | h
+      · subst h; exact .inr ⟨(a, x), by simp, rfl⟩
+      · rcases key_mem_mapSet h with h1 | ⟨e', he', h2⟩
+        · exact .inl h1
+        · exact .inr ⟨e', by simp [he'], h2⟩
+
+/-- `Data[k] = v` keeps a map a map -/
+theorem keysNodup_mapSet (k : K) (v : V) : ∀ m : List (K × V), KeysNodup m → KeysNodup (mapSet k v m)
+  | [], _ => by simp [mapSet, KeysNodup]
+  | (a, x) :: rest, h => by
+    simp only [KeysNodup, List.pairwise_cons] at h
+    by_cases ha : a = k
+    · subst ha
+      simp only [mapSet, if_true, KeysNodup, List.pairwise_cons]
+      exact h
+    · simp only [mapSet, ha, if_false, KeysNodup, List.pairwise_cons]
+      refine ⟨?_, keysNodup_mapSet k v rest h.2⟩
+      intro e he
+      rcases key_mem_mapSet he with h1 | ⟨e', he', h2⟩
+      · simpa [h1] using ha
+      · rw [← h2]; exact h.1 e' he'
+
+theorem mapDel_sublist (k : K) : ∀ m : List (K × V), (mapDel k m).Sublist m
+  | [] => by simp [mapDel]
+  | (a, x) :: rest => by
+    by_cases ha : a = k
+    · simp [mapDel, ha]
+    · simp only [mapDel, ha, if_false]
+      exact (mapDel_sublist k rest).cons_cons _
+
+/-- `delete(Data, k)` keeps a map a map -/
+theorem keysNodup_mapDel (k : K) (m : List (K × V)) (h : KeysNodup m) : KeysNodup (mapDel k m) :=
+  List.Pairwise.sublist (mapDel_sublist k m) h
+
+theorem mapGet_none_of_notKey {k : K} : ∀ {m : List (K × V)}, (∀ e ∈ m, e.1 ≠ k) → mapGet k m = none
+  | [], _ => rfl
+  | (a, x) :: rest, h => by
+    have ha : a ≠ k := h (a, x) (by simp)
+    simp only [mapGet, ha, if_false]
+    exact mapGet_none_of_notKey (fun e he => h e (by simp [he]))
+
+theorem mapGet_mapDel (k k' : K) : ∀ m : List (K × V), KeysNodup m →
+    mapGet k' (mapDel k m) = if k' = k then none else mapGet k' m
+  | [], _ => by simp [mapDel, mapGet]
+  | (a, x) :: rest, h => by
+    simp only [KeysNodup, List.pairwise_cons] at h
+    by_cases ha : a = k
+    · subst ha
+      simp only [mapDel, if_true, mapGet]
+      by_cases h2 : k' = a
+      · subst h2
+        simp only [if_true]
+        exact mapGet_none_of_notKey (fun e he => (h.1 e he).symm)
+      · have : ¬ a = k' := fun e => h2 e.symm
+        simp [h2, this]
+    · simp only [mapDel, ha, if_false, mapGet]
+      by_cases h2 : a = k'
+      · subst h2; simp [ha]
+      · simp only [h2, if_false]
+        exact mapGet_mapDel k k' rest h.2
+
+/-- in a map, the entries are exactly what `Lookup` finds -/
+theorem mem_iff_mapGet : ∀ {m : List (K × V)}, KeysNodup m → ∀ k v, (k, v) ∈ m ↔ mapGet k m = some v
+  | [], _, k, v => by simp [mapGet]
+  | (a, x) :: rest, h, k, v => by
+    simp only [KeysNodup, List.pairwise_cons] at h
+    simp only [List.mem_cons, Prod.mk.injEq, mapGet]
+    by_cases ha : a = k
+    · subst ha
+      simp only [if_true, Option.some.injEq]
+      constructor
+      · rintro (⟨_, rfl⟩ | hm)
+        · rfl
+        · exact absurd rfl (h.1 (a, v) hm)
+      · intro e; exact .inl (by simp [e])
+    · simp only [ha, if_false]
+      rw [← mem_iff_mapGet h.2 k v]
+      constructor
+      · rintro (⟨e, _⟩ | hm)
+        · exact absurd e.symm ha
+        · exact hm
+      · exact fun hm => .inr hm
+
+/-! ### the enumeration -/
+
+theorem insertSorted_perm (e : K × V) : ∀ l : List (K × V), (insertSorted e l).Perm (e :: l)
+  | [] => by simp [insertSorted]
+  | x :: rest => by
+    simp only [insertSorted]
+    split
+    · exact ((insertSorted_perm e rest).cons x).trans (List.Perm.swap e x rest)
+    · exact List.Perm.refl _
+
+theorem sortByKey_perm : ∀ m : List (K × V), (sortByKey m).Perm m
+  | [] => by simp [sortByKey]
+  | e :: rest => by
+    simp only [sortByKey, List.foldr_cons]
+    exact (insertSorted_perm e _).trans ((sortByKey_perm rest).cons e)
+
+theorem insertSorted_asc (e : K × V) : ∀ l : List (K × V), Asc l → (∀ x ∈ l, x.1 ≠ e.1) →
+    Asc (insertSorted e l)
+  | [], _, _ => by simp [insertSorted, Asc]
+  | x :: rest, hasc, hne => by
+    simp only [Asc, List.pairwise_cons] at hasc
+    simp only [insertSorted]
+    by_cases hlt : KeyOrd.lt x.1 e.1 = true
+    · simp only [hlt, if_true, Asc, List.pairwise_cons]
+      refine ⟨?_, insertSorted_asc e rest hasc.2 (fun y hy => hne y (by simp [hy]))⟩
+      intro y hy
+      have := (insertSorted_perm e rest).subset hy
+      simp only [List.mem_cons] at this
+      rcases this with rfl | h
+      · exact hlt
+      · exact hasc.1 y h
+    · simp only [hlt, Bool.false_eq_true, if_false, Asc, List.pairwise_cons]
+      have hex : KeyOrd.lt e.1 x.1 = true := by
+        rcases LawfulKeyOrd.total e.1 x.1 with h | h | h
+        · exact h
+        · exact absurd h.symm (hne x (by simp))
+        · exact absurd h hlt
+      refine ⟨?_, hasc.1, hasc.2⟩
+      intro y hy
+      simp only [List.mem_cons] at hy
+      rcases hy with rfl | h
+      · exact hex
+      · exact LawfulKeyOrd.trans hex (hasc.1 y h)
+
+/-- `All()` of the in-memory value is ascending … -/
+theorem memAll_asc : ∀ m : List (K × V), KeysNodup m → Asc (memAll m)
+  | [], _ => by simp [memAll, sortByKey, Asc]
+  | e :: rest, h => by
+    simp only [KeysNodup, List.pairwise_cons] at h
+    simp only [memAll, sortByKey, List.foldr_cons]
+    apply insertSorted_asc e _ (memAll_asc rest h.2)
+    intro x hx
+    have := (sortByKey_perm rest).subset hx
+    exact (h.1 x this).symm
+
+/-- … and holds exactly the entries of the map -/
+theorem memAll_perm (m : List (K × V)) : (memAll m).Perm m := sortByKey_perm m
+
+/-- two ascending lists with the same elements are equal -/
+theorem asc_ext : ∀ (a b : List (K × V)), Asc a → Asc b → (∀ e, e ∈ a ↔ e ∈ b) → a = b
+  | [], [], _, _, _ => rfl
+  | [], y :: ys, _, _, h => by have := (h y).mpr (by simp); simp at this
+  | x :: xs, [], _, _, h => by have := (h x).mp (by simp); simp at this
+  | x :: xs, y :: ys, ha, hb, h => by
+    simp only [Asc, List.pairwise_cons] at ha hb
+    have hxy : x = y := by
+      have hx := (h x).mp (by simp)
+      have hy := (h y).mpr (by simp)
+      simp only [List.mem_cons] at hx hy
+      rcases hx with hx | hx
+      · exact hx
+      · rcases hy with hy | hy
+        · exact hy.symm
+        · have h1 := hb.1 x hx
+          have h2 := ha.1 y hy
+          have := lt_asymm h1
+          rw [h2] at this; cases this
+    subst hxy
+    congr 1
+    apply asc_ext xs ys ha.2 hb.2
+    intro e
+    constructor
+    · intro he
+      have := (h e).mp (by simp [he])
+      simp only [List.mem_cons] at this
+      rcases this with rfl | h'
+      · have := ha.1 e he; simp [lt_irrefl_k] at this
+      · exact h'
+    · intro he
+      have := (h e).mpr (by simp [he])
+      simp only [List.mem_cons] at this
+      rcases this with rfl | h'
+      · have := hb.1 e he; simp [lt_irrefl_k] at this
+      · exact h'
+
+/-- **no hidden state**: what `All()` yields is determined by the current content of the map
+    (by what `Lookup` answers for every key), whatever sequence of insertions, replacements,
+    deletions and clears produced it -/
+theorem memAll_ext (m1 m2 : List (K × V)) (h1 : KeysNodup m1) (h2 : KeysNodup m2)
+    (h : ∀ k, mapGet k m1 = mapGet k m2) : memAll m1 = memAll m2 := by
+  apply asc_ext _ _ (memAll_asc m1 h1) (memAll_asc m2 h2)
+  intro e
+  obtain ⟨k, v⟩ := e
+  rw [(memAll_perm m1).mem_iff, (memAll_perm m2).mem_iff, mem_iff_mapGet h1, mem_iff_mapGet h2, h k]
+
+/-- the states of an in-memory value: reachable from the empty map by assignments and deletions -/
+inductive Reach : List (K × V) → Prop
+  | empty : Reach []
+  | set (k : K) (v : V) {m : List (K × V)} : Reach m → Reach (mapSet k v m)
+  | del (k : K) {m : List (K × V)} : Reach m → Reach (mapDel k m)
+
+theorem Reach.keysNodup {m : List (K × V)} (h : Reach m) : KeysNodup m := by
+  induction h with
+  | empty => simp [KeysNodup]
+  | set k v _ ih => exact keysNodup_mapSet k v _ ih
+  | del k _ ih => exact keysNodup_mapDel k _ ih
+
+/-- **histories**: two histories on an in-memory value that lead to the same map content give the
+    same enumeration (ascending, each entry once) and the same lookups -/
+theorem history_independent (m1 m2 : List (K × V)) (h1 : Reach m1) (h2 : Reach m2)
+    (h : ∀ k, mapGet k m1 = mapGet k m2) :
+    memAll m1 = memAll m2 ∧ Asc (memAll m1) ∧ (memAll m1).Perm m1 ∧
+      ∀ k, memLookup m1 k = memLookup m2 k :=
+  ⟨memAll_ext m1 m2 h1.keysNodup h2.keysNodup h, memAll_asc m1 h1.keysNodup, memAll_perm m1,
+    fun k => by simp [memLookup, h k]⟩
+
+end
+
 end PdfVerif.C17trsb
